@@ -276,7 +276,7 @@ func TestC16_HistoriesRandom(t *testing.T) {
 		"random histories of length 4..40 over the same operation instances and configurations; same oracle. Non-trivial: as above. Distinct by hash.")
 	defer c.Finish()
 	trees := c16Trees()
-	runRapid(t, c, 150, 800, func(rt *rapid.T) {
+	runRapid(t, c, 150, 2400, func(rt *rapid.T) {
 		cs := trees[rapid.IntRange(0, len(trees)-1).Draw(rt, "config")]
 		cs.History = rapid.SliceOfN(rapid.IntRange(0, len(cs.Ops)-1), 4, 40).Draw(rt, "history")
 		nt := c16NonTrivial(cs)
